@@ -23,6 +23,7 @@ DOC = {
         'C05.R6': 'run_script counts only successes: Result<FileLen> is turned into a count only through filter_map(Result::ok)',
         'C05.R7': 'error discipline: no io::Result in dedupe.rs/reflink.rs/lock.rs is discarded (named exceptions)',
         'C05.R8': 'the temporary is a sibling: temp_file derives from path.parent() and path.file_name()',
+        'C05.R10': 'no buffered writer (BufWriter/LineWriter, also inside another value) in dedupe.rs/reflink.rs/lock.rs/main.rs is dropped on a success path without a checked flush: its drop discards the error of the last write, after which the source would be removed (expected instances on this tree: 0; engine control in the fixture crate)',
         'C05.R9': 'the primitive wrappers are what their callers assume: remove = remove_file(path); unsafe_rename = rename(source, target); unsafe_copy = copy(source, target); hardlink = hard_link(target, link); symlink_internal = symlink(target, link); mkdirs = create_dir_all(path); each is the only mutating primitive in its wrapper and its error is returned',
     },
     'not_decided': 'atomicity of rename(2)/link(2) themselves; double faults beyond "roll-back failure is logged"; what a kill between two syscalls leaves on a real file system',
@@ -43,8 +44,12 @@ def run(ctx):
     r7(ctx, lib)
     r8(ctx, lib)
     r9(ctx, lib)
+    r10(ctx, lib)
     from .common import run_mandatory
     run_mandatory(ctx, 'C05')
+    if ctx.tier == 'thorough' and not getattr(ctx, 'sibling', None):
+        from .. import sweep
+        sweep.error_discipline(ctx, 'C05.R7', skip_files=('walk.rs', 'file.rs', 'hasher.rs', 'group.rs', 'transform.rs', 'cache.rs', 'device.rs'))
 
 
 def role(body, op, tmp_rx=r'FsCommand::temp_file$'):
@@ -412,6 +417,11 @@ def r9(ctx, lib):
         prim = [(x, c) for x, c in sinks if c.matches(rx)]
         ok = len(sinks) == 1 and len(prim) == 1
         why = 'mutating primitives in the wrapper: %s' % [c.path for _, c in sinks]
+        if not ok and fn.endswith('unsafe_copy') and not prim:
+            alt, altwhy = streaming_copy(lib, b, bodies, sinks)
+            if alt is not None:
+                ctx.check(alt, rule, fn, b.where(), 'streaming copy: target created from arg2, source opened from arg1, every I/O result propagated, writer flushed', altwhy)
+                continue
         if ok:
             x, c = prim[0]
             for i, pnum in enumerate(params):
@@ -424,3 +434,50 @@ def r9(ctx, lib):
                 ok = False
                 why = 'the primitive\'s error is %s' % cat
         ctx.check(ok, rule, fn, b.where(), '%s(%s), error returned' % (rx.strip('^$').split('::')[-1], ', '.join('arg%d' % p for p in params)), why)
+
+
+def r10(ctx, lib):
+    rule = 'C05.R10'
+    from .common import buffered_drop_discipline
+    bodies = [b for b in lib.bodies.values() if b.file.endswith(('dedupe.rs', 'reflink.rs', 'lock.rs', 'main.rs')) and not re.search(r'(^|::)tests?(::|$)', b.path) and b.kind not in ('const', 'static', 'promoted')]
+    ctx.floor(rule, 'bodies of dedupe.rs/reflink.rs/lock.rs examined for buffered writers', len(bodies), 100, '')
+    n = buffered_drop_discipline(ctx, rule, bodies)
+    if n == 0:
+        ctx.ok(rule, 'no-buffered-writers', 'fclones/src/dedupe.rs', 'no buffered writer is created or dropped in %d bodies of the dedupe layer (every write goes straight to the OS and returns its own error)' % len(bodies))
+
+
+def streaming_copy(lib, b, bodies, sinks):
+    """The accepted second idiom for unsafe_copy: open(source) + create(target) + read/write loop.  Returns (ok, why) or
+    (None, None) when the wrapper is not of that shape at all."""
+    from .common import buffered_drops, io_result
+    create = [(x, c) for x, c in sinks if c.matches(r'^std::fs::File::create$|OpenOptions::open$')]
+    if len(create) != 1 or len(sinks) != 1:
+        return None, None
+    x, c = create[0]
+
+    def param_of(body, op):
+        sl = backslice(body, [op])
+        ps = set(sl.params) - ({1} if body.kind == 'closure' else set())
+        from ..analysis import upvar_operand
+        for i, n in sl.upvars:
+            pb, o = upvar_operand(lib, body, i)
+            if pb is not None and o is not None:
+                ps |= backslice(pb, [o]).params
+        return ps
+    tgt = param_of(x, c.args[-1] if c.matches(r'OpenOptions::open$') else c.args[0])
+    opens = [(y, o) for y in bodies for o in y.calls(r'^std::fs::File::open$')]
+    src = param_of(opens[0][0], opens[0][1].args[0]) if opens else set()
+    if tgt != {2}:
+        return False, 'the file created by the copy derives from parameter(s) %s, expected the target (2)' % sorted(tgt)
+    if src != {1}:
+        return False, 'the file read by the copy derives from parameter(s) %s, expected the source (1)' % sorted(src)
+    for y in bodies:
+        for k in y.calls():
+            if io_result(k) and not k.exp and not k.matches(r'Result(::)?<.*>::|as std::ops::Try>::|FromResidual|std::convert::|Option(::)?<.*>::|std::io::Error::'):
+                cat, det = err_handling(y, k)
+                if cat not in ('PROPAGATED', 'RETURNED', 'ERR-RETURNED'):
+                    return False, 'the result of %s at %s is %s' % (k.path.rsplit('::', 1)[-1], k.where(), cat)
+        for bi, l, ty, flushed, w in buffered_drops(y):
+            if not flushed:
+                return False, 'the buffered writer %s is dropped without a checked flush (C05.R10)' % (y.local_name(l) or ty)
+    return True, ''
